@@ -610,6 +610,43 @@ func runC20(c *Ctx) {
 			}
 		}
 		c.check(good, "worker-deadline:"+which, instrPos(ci), "context from makeDdlCtx(caller ctx)", "the "+which+" worker's context is not derived from the caller's deadline")
+		// that context stays live for the whole worker: its cancel function is only deferred (the standby wait
+		// selects on its Done(); cancelling right after Exec opens that wait at once)
+		for _, r := range roots {
+			ex, ok := r.(*ssa.Extract)
+			if !ok {
+				continue
+			}
+			for _, r2 := range referrers(ex.Tuple.(ssa.Value)) {
+				e2, ok := r2.(*ssa.Extract)
+				if !ok || e2.Index != 1 {
+					continue
+				}
+				onlyDeferred := true
+				for _, u := range referrers(e2) {
+					switch y := u.(type) {
+					case *ssa.Defer:
+					case *ssa.DebugRef:
+					case *ssa.Store:
+						// spilled into a cell: its loads must be deferred calls too
+						for _, u2 := range referrers(y.Addr) {
+							if ld, ok := u2.(*ssa.UnOp); ok {
+								for _, u3 := range referrers(ld) {
+									if _, isD := u3.(*ssa.Defer); !isD {
+										if _, isDbg := u3.(*ssa.DebugRef); !isDbg {
+											onlyDeferred = false
+										}
+									}
+								}
+							}
+						}
+					default:
+						onlyDeferred = false
+					}
+				}
+				c.check(onlyDeferred, "worker-ctx-live:"+which, instrPos(ci), "the worker's context is cancelled only when the worker returns (deferred)", "the "+which+" worker cancels its context before it returns: the always_standby wait on that context's Done() falls through at once and the secondary's answer is released although the primary is still within the threshold")
+			}
+		}
 	}
 	// the workers do not share a copy: each worker's context originates from its own Copy() call
 	{
